@@ -365,7 +365,7 @@ def gen_cases(rng, tier, boost=1):
     VIA.clear()
     LISTS.clear()
     prereg = None
-    if rng.random() < 0.3:
+    if rng.random() < 0.4:
       # some functions and classes (nested ones too) were registered from Python before any file is parsed:
       # nothing about names or bindings changes, and the config string still spells them by attribute path
       mods = {i for _, i in w['modules']}
@@ -400,7 +400,7 @@ def gen_cases(rng, tier, boost=1):
         break
     case = {'dom': 'dyn', 'units': units}
     if prereg is not None:
-      if rng.random() < 0.5 and not any(any_expect(u) for u in units):
+      if rng.random() < 0.8 and not any(any_expect(u) for u in units):
         # bindings made from Python after the files were parsed, on configurables no file needs to have imported:
         # config_str() has to import their modules itself, under names that do not depend on the order of these calls
         twins = [name_to_id('c19pkg.sub.m2:shared'), name_to_id('c19pkg.alt.m2:shared')]
@@ -545,6 +545,15 @@ def _run_once(case, reverse_prog):
     for u in case['units']:
       text = render(u, tmp, counter)
       texts.append(text)
+      # what the configuration holds so far has been used once before the next file is parsed (a reference builds
+      # its scoped callable then): a later re-registration must still reach it
+      for params in list(gin.config._CONFIG.values()):  # pylint: disable=protected-access
+        for v in list(params.values()):
+          if isinstance(v, gin.config.ConfigurableReference):
+            try:
+              v.scoped_configurable_fn  # pylint: disable=pointless-statement
+            except Exception:  # pylint: disable=broad-except
+              pass
       try:
         gin.parse_config(text, **skip_kw(case))
       except Exception as e:  # pylint: disable=broad-except
@@ -561,6 +570,31 @@ def _run_once(case, reverse_prog):
       for o, a, v in (prog[::-1] if reverse_prog else prog):
         gin.bind_parameter(f'{gin.config._inverse_lookup(objs[o]).selector}.{a}', v)  # pylint: disable=protected-access
     res = {'err': err, 'err_msg': err_msg, 'bindings': observe(gin, objs), 'texts': texts + counter[1:]}
+    if err is None:
+      bare = []
+
+      def walk(stmts):
+        for st in stmts:
+          if st.get('k') == 'unit':
+            walk(st['body'])
+          elif st.get('k') == 'bind' and st.get('_method') and not st.get('_expect'):
+            bare.append((st['_method'], st['arg']))
+      for u in case['units']:
+        walk(u)
+      accepted = []
+      for meth, arg in sorted(set(bare)):
+        before = {k: dict(v) for k, v in gin.config._CONFIG.items()}  # pylint: disable=protected-access
+        for key in (f'{meth}.{arg}', ('', meth, arg), f'some/scope/{meth}.{arg}'):
+          try:
+            gin.bind_parameter(key, 12345)
+            accepted.append(str(key))
+          except Exception:  # pylint: disable=broad-except
+            pass
+        if {k: dict(v) for k, v in gin.config._CONFIG.items()} != before:  # pylint: disable=protected-access
+          accepted.append('store changed')
+          gin.config._CONFIG.clear()  # pylint: disable=protected-access
+          gin.config._CONFIG.update(before)  # pylint: disable=protected-access
+      res['bare_method_accepted'] = accepted
     effects = []
     if err is None:
       for ci in sorted(CLASS_IDS(w)):
@@ -616,6 +650,31 @@ def _run_once(case, reverse_prog):
     res['im_names_distinct'] = len(set(names)) == len(names)
     keys = sorted(f'{s}|{sel}' for (s, sel) in gin.config._CONFIG)  # pylint: disable=protected-access
     res['store_keys'] = keys
+    if err is None and case.get('_prog') and not reverse_prog:
+      try:
+        called = []
+        for o, a, v in case['_prog']:
+          if isinstance(objs[o], types.FunctionType) and not isinstance(objs[o], type):
+            try:
+              out = gin.get_configurable(objs[o])()
+              called.append([o, a, out[-1] if isinstance(out, tuple) and len(out) == 2 else None])
+            except Exception:  # pylint: disable=broad-except
+              pass
+        if called:
+          optext = gin.operative_config_str()
+          saved = {k: dict(v) for k, v in gin.config._CONFIG.items()}  # pylint: disable=protected-access
+          g2 = core.fresh_gin()
+          for i in case.get('_prereg', []):
+            kind, names = (case.get('_prereg_lists') or {}).get(str(i), (None, None))
+            g2.register(objs[i], **({'denylist': list(names)} if kind == 'deny' else {'allowlist': list(names)} if kind == 'allow' else {}))
+          try:
+            g2.parse_config(optext)
+            res['operative_replays'] = True
+          except Exception as e:  # pylint: disable=broad-except
+            res['operative_replays'] = f'{type(e).__name__}: {e}'[:300] + '\n' + optext
+          del saved
+      except Exception as e:  # pylint: disable=broad-except
+        res['operative_replays'] = f'operative_config_str: {type(e).__name__}: {e}'[:300]
     if err is None:
       try:
         res['reqs'] = _requirements(gin)
@@ -719,6 +778,11 @@ def oracle(case, impl):
   why = method_effects(case, impl)
   if why:
     return why
+  if impl.get('bare_method_accepted'):
+    return (f'a method configured through its class is addressable without the class name afterwards: '
+            f'bind_parameter accepted {impl["bare_method_accepted"]}')
+  if impl.get('operative_replays') not in (None, True):
+    return f'the operative text after calling the functions bound from Python does not parse in a fresh process: {impl["operative_replays"]}'
   if 'config_str_rev' in impl and impl.get('config_str') != impl['config_str_rev']:
     return ('config_str() depends on the order in which the bindings were made (same calls, opposite order):\n'
             f'{impl.get("config_str")}\n--- versus ---\n{impl["config_str_rev"]}')
